@@ -174,8 +174,10 @@ static J gen_grains(Chooser &ch)
   for (int i = 0; i < nc; ++i)
     {
       comps.push(J(i * 2));
-      sizes.push(J(ch.chance(50) ? -1.0 : ch.lattice(0.125, 3, 0.125)));
-      norm.push(J(ch.flip()));
+      // fixed sizes include exactly 0 (a phase switched off), which is "returned as given" only without normalisation (0/0 otherwise)
+      const bool zero = ch.chance(8);
+      sizes.push(J(zero ? 0.0 : (ch.chance(50) ? -1.0 : ch.lattice(0.125, 3, 0.125))));
+      norm.push(J(zero ? false : ch.flip()));
       defl.push(J(ch.lattice(0, 1, 0.125)));
       basis.push(jp(ch.lattice(0, 345, 15), ch.lattice(0, 180, 15), ch.lattice(0, 345, 15)));
     }
